@@ -7,6 +7,18 @@ TECH_A = "bounded symbolic execution of the real Python code (CrossHair 0.0.110 
 TECH_B = "; plus direct z3 obligations generated from the live source/AST (unbounded in the stated dimension)"
 
 CLAIMED = {
+    "C11": dict(
+        text="REDUCED SCOPE (see level_note): bounded symbolic model checking of everything the repository's own code contributes to match()/search(): (i) map_re(p) for every pattern of up to 4 (5 thorough) symbolic characters over all scalar values equals the reference rewriting (unescaped '.' outside a class -> any-character-but-CR/LF group; escaped characters, escaped backslashes and class contents verbatim); (ii) Match.__call__/Search.__call__ with the two foreign engines cut by contract stubs, arguments symbolic over every JSON kind and nothing: non-string pattern/subject, invalid I-Regexp or an engine raising regex.error/TypeError all give False, nothing ever raises, match calls fullmatch(map_re(p), s) and search calls search(map_re(p), s) with identical flags; (iii) supplementary finite exhaustive concrete check on the real engine: the '.' replacement matches every single scalar value except LF/CR, classes stay literal for | & ~ - .",
+        note="NOT decided: that the foreign engines (regex: C extension; iregexp_check: Rust) implement I-Regexp language semantics for the rewritten pattern - they cannot be executed symbolically or encoded within reach (DESIGN section 5); the claim covers the Python translation layer and the guard/dispatch contract only, which is all the code this repository contributes to the property. Trusted: CrossHair/z3, the stubs' contract (fullmatch = whole string, search = substring, TypeError on non-strings).",
+        tech=TECH_A + "; engines cut by contract stubs; one finite concrete enumeration on the real engine", design="§4 C11, §5"),
+    "C17": dict(
+        text="Symbolic model checking of the nondeterministic mode over ALL outcomes of the random choices: random.shuffle/choice/sample as seen by segments.py/selectors.py are replaced by a tape whose every draw is a solver variable, so the executor explores every branch of the choice tree of the real traversal code. Validity: on every path the produced nodelist must belong to the set RFC 9535 permits for that query and document (independent reference enumeration: linear extensions of parent-before-child and array order, selector results per visited node contiguous, object members in any order per application). Exhaustiveness: after the tree is exhausted the produced set must equal the permitted set; a missing ordering is confirmed by concrete enumeration of every tape on the real code.",
+        note="Trusted: CrossHair/z3, the ChoiceTape model of the random API (validated each run: all permutations and ordered selections reachable), the reference permitted-set enumeration (self-tested against the orderings listed in tests/test_nondeterminism.py). Bounds: concrete document shapes with <= 6 (8 thorough) nodes x 13 (15) queries; larger documents are outside the claim (the choice tree grows factorially).",
+        tech=TECH_A + "; random outcomes as solver variables", design="§4 C17"),
+    "C18": dict(
+        text="Bounded symbolic model checking of the recursion bound: the configured limit L is an unbounded solver variable, the document a concrete spine of nesting depth d (arrays/objects/mixed, deep branch first/middle/last, scalar or empty container at the bottom) or a cyclic structure (self-loops, 2- and 3-cycles, diamond); the real descendant traversal runs in deterministic mode and in nondeterministic mode with every random draw a solver variable. For every L: d <= L => find('$..*') completes with the reference result; d > L => JSONPathRecursionError; cyclic data => JSONPathRecursionError within 10000 yielded nodes, never another exception.",
+        note="Trusted: CrossHair/z3, ChoiceTape (validated), reference evaluator. Bounds: d <= 6 (9 thorough) deterministic, d <= 3 (4) nondeterministic; cyclic: L <= 10 (16) deterministic, <= 3 (4) nondeterministic. NOT claimed: large configured limits against CPython's own recursion limit (the deterministic visitor is a recursive generator), unbounded memory growth.",
+        tech=TECH_A + "; random outcomes as solver variables", design="§4 C18"),
     "C08": dict(
         text="Bounded symbolic model checking of locations and normalized paths: (a) for index/slice/name templates with every integer a solver variable (negative indices, reverse slices) on symbolic arrays each node's location is walked from the root and must reach the identical object, with non-negative indices (also asserted inside every C01/C02/C10 obligation); (b) JSONPathNode.path() for symbolic locations (names of up to 2 symbolic characters over all scalar values - quotes, backslash, every control character, DEL, non-BMP, empty - and symbolic non-negative ints, up to 3 keys) equals the RFC 9535 section 2.7 normalized path of the reference; (c) the normalized path of a member with a symbolic name is compiled by the real parser and evaluated on an object holding that member and near-miss members: exactly that node comes back, and paths of array nodes lead back to the node; (d) values()/paths()/items() agree with the nodes.",
         note="Trusted: CrossHair/z3, M5 json.dumps(str, ensure_ascii=False) model (validated for every scalar value each run), reference normalized path (self-tested against the RFC table 20 examples), equality-scan objects for symbolic member names, guarded bitwise rewrites. Outside: names longer than 2 (3 thorough) characters.",
